@@ -17,7 +17,7 @@ LEVEL = 'model_checking'
 
 SGR = re.compile(r'\x1b\[[0-9;]*m')
 MODS = ['bold', 'dim', 'italic', 'underline', 'blink', 'inverse', 'hidden', 'strikethrough']
-SPECS = ['', '>5', '<5', '^6', '*^7', '.1', '>5.1', '3']
+SPECS = ['', '>5', '<5', '^6', '*^7', '.1', '>5.1', '3', '}<6', '{^5', ':>4']
 TCHARS = ['a', ' ', '{', '}', ':', 'é', '日', '́', '\\', 'e']
 CLEAN = re.compile(r'^[^{}:\\\'"\x00-\x1f]*$')
 
@@ -102,8 +102,19 @@ def check_one(m, text, fg, bg, mods, spec, tag):
             m.violation(f'apply-alters-text/{tag}', enabled=enabled, got=o, **desc)
         if descape(out) != strip(out) or visual_len(out) != len(strip(out)):
             m.violation(f'descape-disagrees/{tag}', got=descape(out), **desc)
-        # with a stored format the visible length is the formatted length
+        # with a stored format the visible length is the formatted length, and every rendering route applies it
         sf = s.fmt(spec) if spec else s
+        if spec:
+            for route, f in (('stored-str', lambda: str(sf)), ('stored-format-empty', lambda: format(sf, '')), ('stored-fstring', lambda: f'{sf}'),
+                             ('stored-str-format', lambda: '{}'.format(sf)), ('stored-constructor', lambda: str(mk(text, fg, bg, mods, color, fmt=spec)))):
+                try:
+                    o = f()
+                except Exception as e:  # noqa
+                    m.violation(f'{route}-raises/{type(e).__name__}/{tag}', enabled=enabled, **desc)
+                    continue
+                m.add('evaluations')
+                if strip(o) != want:
+                    m.violation(f'{route}-ignores-stored-format/{tag}', enabled=enabled, got=o, want=want, **desc)
         try:
             if len(sf) != len(want):
                 m.violation(f'len-with-fmt-differs/{tag}', enabled=enabled, got=len(sf), want=len(want), **desc)
